@@ -1086,6 +1086,20 @@ def write_if_changed(path, content):
     return True
 
 
+def expr_shape(e, k):
+    """'N' plain name, 'L' base.combine(P0)…combine(Pk-1), 'R' Pk-1.combine(…P0.combine(base)), else 'other'
+    (the shapes Lemmas/TypeIdStruct.lean's `classify` recognises)."""
+    def lfold(j, n): return ("name", n) if j == 0 else ("combine", lfold(j - 1, n), ("param", j - 1))
+    def rfold(j, n): return ("name", n) if j == 0 else ("combine", ("param", j - 1), rfold(j - 1, n))
+    names = expr_names(e)
+    if not names: return "other"
+    n = names[0]
+    if k == 0: return "N" if e == ("name", n) else "other"
+    if e == lfold(k, n): return "L"
+    if e == rfold(k, n): return "R"
+    return "other"
+
+
 def collisions(U, uni):
     """pairs of distinct universe members with equal Python-computed ids"""
     seen, out = {}, []
@@ -1116,6 +1130,8 @@ def generate(write=True):
         "skipped": skipped, "notes": U.notes, "changed": changed,
         "unused_params": [f"{c['key']}: {c['unused_params']}" for c in table if c["unused_params"]],
         "distinct_name_strings": len(set(names)), "name_strings": len(names),
+        "shapes": {sh: sum(1 for c in table if expr_shape(c["expr"], len(c["generics"])) == sh) for sh in ("N", "L", "R", "other")},
+        "shape_other": [c["key"] for c in table if expr_shape(c["expr"], len(c["generics"])) == "other"],
         "max_depth": max(U.depth(t) for t in uni),
         "_U": U, "_uni": uni, "_pairs": pairs, "_table": table,
     }
